@@ -164,57 +164,60 @@ Proof.
   reflexivity.
 Qed.
 
-(* ---- hash: any function will do (only speed depends on it) ---- *)
-Local Open Scope N_scope.
+(* ---- hash: any function will do (only speed depends on it).  The key is built
+   by concatenating small bit strings: no arithmetic, cheap under vm_compute. ---- *)
+Local Open Scope positive_scope.
 
-(* h * 33 + x mod 2^20, with a shift instead of a multiplication (cheap under vm_compute) *)
-Definition mix (h x : N) : N := N.land (N.shiftl h 5 + h + x) 1048575.
+(* the bits of a (without its leading 1) in front of b *)
+Fixpoint papp (a b : positive) : positive :=
+  match a with xH => b | xO a' => xO (papp a' b) | xI a' => xI (papp a' b) end.
 
-Definition hb (b : bool) : N := if b then 1 else 0.
+Definition pb (v : bool) (p : positive) : positive := if v then xI p else xO p.
 
-Definition hmeth (m : meth) : N :=
-  match m with MSend => 1 | MRecv => 2 | MCloseSend => 3 | MHeader => 4 | MTrailer => 5 | MContext => 6 end.
+Definition hmeth (m : meth) : positive :=
+  match m with MSend => 9 | MRecv => 10 | MCloseSend => 11 | MHeader => 12 | MTrailer => 13 | MContext => 14 end.
 
-Fixpoint hcnd (c : cnd) : N :=
+Fixpoint hcnd (c : cnd) : positive :=
   match c with
-  | CStreamNil => 1 | CErrSet => 2 | CCtxLive => 3 | CWatching => 4 | CCancellable => 5 | CLocalErr => 6 | CTrue => 7
-  | CNot a => mix 8 (hcnd a)
-  | CAnd a b => mix (mix 9 (hcnd a)) (hcnd b)
-  | COr a b => mix (mix 10 (hcnd a)) (hcnd b)
+  | CStreamNil => 16 | CErrSet => 17 | CCtxLive => 18 | CWatching => 19 | CCancellable => 20 | CLocalErr => 21 | CTrue => 22
+  | CNot a => papp 23 (hcnd a)
+  | CAnd a b => papp 24 (papp (hcnd a) (hcnd b))
+  | COr a b => papp 25 (papp (hcnd a) (hcnd b))
   end.
 
-(* the head constructor and the length are enough to separate continuations of one program well *)
-Definition hinstr (i : instr) : N :=
+(* head constructor (+ condition and body length for if/for) *)
+Definition hinstr (i : instr) : positive :=
   match i with
-  | ILock => 1 | IUnlock => 2 | IBroadcast => 3 | IWait => 4
-  | IIf c b => mix (mix 5 (hcnd c)) (N.of_nat (length b))
-  | IWhile c b => mix (mix 6 (hcnd c)) (N.of_nat (length b))
-  | IMkCtx u => 7 + hb u | ICallStreamer u => 9 + hb u
-  | ISetErr => 11 | IClearErr => 12 | ILoadErr => 13 | ISetStream => 14 | ISetWatching => 15
-  | ISpawn => 16 | IAwaitDone => 17
-  | IReturn r => 18 + match r with RNil => 0 | RLocalErr => 1 | RInitErr => 2 | RCtxErr => 3 | RCallCtx => 4 end
-  | IDelegate m u => 24 + 2 * hmeth m + hb u
+  | ILock => 32 | IUnlock => 33 | IBroadcast => 34 | IWait => 35
+  | IIf c b => papp 36 (papp (hcnd c) (Pos.of_succ_nat (length b)))
+  | IWhile c b => papp 37 (papp (hcnd c) (Pos.of_succ_nat (length b)))
+  | IMkCtx u => pb u 38 | ICallStreamer u => pb u 39
+  | ISetErr => 40 | IClearErr => 41 | ILoadErr => 42 | ISetStream => 43 | ISetWatching => 44
+  | ISpawn => 45 | IAwaitDone => 46
+  | IReturn r => match r with RNil => 47 | RLocalErr => 48 | RInitErr => 49 | RCtxErr => 50 | RCallCtx => 51 end
+  | IDelegate m u => pb u (papp 52 (hmeth m))
   end.
 
-Definition hblock (k : list instr) : N :=
+(* length and the first two instructions separate the continuations of one program well *)
+Definition hblock (k : list instr) (p : positive) : positive :=
   match k with
-  | [] => 0
-  | i :: r => mix (mix (N.of_nat (length k)) (hinstr i)) (match r with j :: _ => hinstr j | [] => 0 end)
+  | [] => xO p
+  | i :: r => papp (Pos.of_succ_nat (length k))
+                   (papp (hinstr i) (match r with j :: _ => papp (hinstr j) p | [] => xI p end))
   end.
 
-Definition htstat (s : tstat) : N :=
+Definition htstat (s : tstat) (p : positive) : positive :=
   match s with
-  | TIdle => 1 | TDead => 2 | TFin => 3
-  | TRun k => mix 4 (hblock k) | TWait k => mix 5 (hblock k) | TWoken k => mix 6 (hblock k)
+  | TIdle => papp 8 p | TDead => papp 9 p | TFin => papp 10 p
+  | TRun k => papp 11 (hblock k p) | TWait k => papp 12 (hblock k p) | TWoken k => papp 13 (hblock k p)
   end.
 
-Definition hthr (x : thr) : N :=
-  mix (mix (mix (mix (mix (htstat (st x)) (match cm x with None => 0 | Some m => hmeth m end))
-                     (hb (lerr x))) (hb (lctx x))) (hb (lcs x))) (hb (post x)).
+Definition hthr (x : thr) (p : positive) : positive :=
+  htstat (st x)
+    (papp (match cm x with None => 8 | Some m => hmeth m end)
+          (pb (lerr x) (pb (lctx x) (pb (lcs x) (pb (post x) p))))).
 
 Definition hcore (s : core) : positive :=
-  let flags :=
-    hb (stream s) + 2 * hb (err s) + 4 * hb (watching s) + 8 * hb (cdone s) + 16 * hb (cancellable s) +
-    32 * hb (created s) + 64 * hb (anyfail s) +
-    128 * match mu s with None => 0 | Some T0 => 1 | Some T1 => 2 | Some TW => 3 end in
-  N.succ_pos (mix (mix (mix flags (hthr (th0 s))) (hthr (th1 s))) (hthr (thw s))).
+  pb (stream s) (pb (err s) (pb (watching s) (pb (cdone s) (pb (cancellable s) (pb (created s) (pb (anyfail s)
+    (papp (match mu s with None => 4 | Some T0 => 5 | Some T1 => 6 | Some TW => 7 end)
+          (hthr (th0 s) (hthr (th1 s) (hthr (thw s) 1)))))))))).
